@@ -230,6 +230,19 @@ CHECKS['C14'] = dict(
    technique="TLA+ rewriting machine with cycle guard (TLC, exhaustive over tables) + spec->code replay + alias/definition comparison",
    ref="5/C14")
 
+CHECKS['C15'] = dict(
+   text="IndentFormat.tla extends AbbrTree.tla (generator, stack machine, depth-number contract) with 15 decorated element forms (id, "
+        "several classes, attribute lists, single- and multi-line text, self-closing, implicit names, bare div, div with only "
+        "non-primary attributes) under > + ^ and *N and defines the line contract of pug, haml and slim (head = name#id.classes with "
+        "div omitted when an id or class is present, % prefix, the syntax' attribute list and self-closing mark, text after a blank, "
+        "multi-line text as | lines resp. padded lines with | one level deeper). TLC checks the tree invariants and that the element "
+        "lines carry exactly the depths of the tree in document order, text lines one deeper than their element. Every abbreviation is "
+        "expanded by the real code for the three syntaxes with three indent strings; the output split into (indent units, text) lines "
+        "must equal the contract, and the depth listing must equal the tag listing of the real HTML output.",
+   note="Bounded (3-5 tokens all forms, 7-9 tokens four forms, simulated to 30 tokens). Lines are compared after removing trailing blanks.",
+   technique="TLA+ tree machine = contract plus line contract (TLC) + spec->code replay for pug/haml/slim",
+   ref="5/C15")
+
 NOT_YET = {}
 
 def main():
